@@ -172,7 +172,216 @@ type c20Seen struct {
 	m  map[string]p2p.Peer
 }
 
+// c20GateReg is B's provider registry in the mutual-dial class: B's verifyReq calls it (the remote
+// is a provider) after B has passed the isConnected test of Connect and before B writes its final
+// handshake message.
+type c20GateReg struct {
+	calls   atomic.Int64
+	release chan struct{}
+}
+
+func (r *c20GateReg) CheckProviderRegistered(context.Context, common.Address) bool {
+	r.calls.Add(1)
+	<-r.release
+	return true
+}
+
+// c20RunMutual realises class 3.  B dials A.  B is stopped inside its registry call, the driver
+// takes B's registry lock (as a slow Disconnected callback would hold it), lets B go on: B writes
+// its final message and blocks in addPeer.  A's handler registers B; A's Connect(B) returns through
+// the shortcut; A opens its streams, which reach B's wrapper (blocked on the same lock).  Then the
+// lock is released: the wrappers' first lookup runs before B's addPeer.
+func c20RunMutual(t *testing.T, e *vfEnv, class string, in c20In, keyRng *rand.Rand) {
+	slow := time.Duration(e.Slow)
+	limit := 20 * time.Second * slow
+	mkLogger := func() *slog.Logger {
+		return slog.New(slog.NewTextHandler(io.Discard, &slog.HandlerOptions{Level: slog.LevelError}))
+	}
+	aKey, bKey := c20Key(keyRng), c20Key(keyRng)
+	aAddr := crypto.PubkeyToAddress(aKey.PublicKey)
+	aks := &c20KS{MockKeySigner: mockkeysigner.NewMockKeySigner(aKey, aAddr), addr: aAddr, gate: make(chan struct{})}
+	aks.open()
+	svcA, err := New(&Options{KeySigner: aks, Secret: "c20", ListenPort: 0, ListenAddr: "127.0.0.1",
+		PeerType: p2p.PeerType(in.RType), Register: &c20Reg{ans: true}, MetricsReg: prometheus.NewRegistry(), Logger: mkLogger()})
+	if err != nil {
+		t.Errorf("c20: mutual A: %v", err)
+		return
+	}
+	defer svcA.Close()
+	gaBase := aks.calls.Load()
+	breg := &c20GateReg{release: make(chan struct{})}
+	var relOnce sync.Once
+	releaseReg := func() { relOnce.Do(func() { close(breg.release) }) }
+	defer releaseReg()
+	svcB, err := New(&Options{KeySigner: mockkeysigner.NewMockKeySigner(bKey, crypto.PubkeyToAddress(bKey.PublicKey)),
+		Secret: "c20", ListenPort: 0, ListenAddr: "127.0.0.1",
+		PeerType: p2p.PeerType(in.IType), Register: breg, MetricsReg: prometheus.NewRegistry(), Logger: mkLogger()})
+	if err != nil {
+		t.Errorf("c20: mutual B: %v", err)
+		return
+	}
+	defer svcB.Close()
+
+	seen := &c20Seen{m: map[string]p2p.Peer{}}
+	desc := c20Desc
+	desc.Handler = func(ctx context.Context, from p2p.Peer, str p2p.Stream) error {
+		msg := new(wrapperspb.StringValue)
+		if err := str.ReadMsg(ctx, msg); err != nil {
+			return err
+		}
+		seen.mu.Lock()
+		seen.m[msg.Value] = from
+		seen.mu.Unlock()
+		return str.WriteMsg(ctx, &wrapperspb.StringValue{Value: "ack:" + msg.Value})
+	}
+	svcB.AddStreamHandlers(desc)
+	aInfo, _ := peer.AddrInfo{ID: svcA.host.ID(), Addrs: svcA.host.Addrs()}.MarshalJSON()
+	bInfo, _ := peer.AddrInfo{ID: svcB.host.ID(), Addrs: svcB.host.Addrs()}.MarshalJSON()
+
+	ctx, cancel := context.WithTimeout(context.Background(), limit)
+	defer cancel()
+	sctx, scancel := context.WithCancel(context.Background())
+	defer scancel()
+
+	obs := c20Obs{Streams: make([]c20Stream, in.Streams)}
+	for k := range obs.Streams {
+		obs.Streams[k] = c20Stream{Res: "pending"}
+	}
+	bDone := make(chan error, 1)
+	go func() {
+		_, err := svcB.Connect(ctx, aInfo)
+		bDone <- err
+	}()
+	locked := false
+	unlock := func() {
+		if locked {
+			locked = false
+			svcB.peers.mu.Unlock()
+		}
+	}
+	defer unlock()
+	var aPeer p2p.Peer
+	var wg sync.WaitGroup
+	var streamsDone atomic.Int64
+	var obsMu sync.Mutex
+	if !c20Until(limit/2, func() bool { return breg.calls.Load() >= 1 }) {
+		obs.OtherErr = "B never asked its registry about A"
+	} else {
+		svcB.peers.mu.Lock()
+		locked = true
+		_, obs.RegAtGate = svcB.peers.overlays[svcA.host.ID()]
+		releaseReg()
+		if !c20Until(limit/2, func() bool { _, ok := svcA.peers.isConnected(svcB.host.ID()); return ok }) {
+			obs.OtherErr = "A never registered B"
+		} else {
+			var err error
+			aPeer, err = svcA.Connect(ctx, bInfo)
+			obs.ConnectOK = err == nil
+			if err != nil {
+				obs.ConnectErr = err.Error()
+			}
+		}
+		if obs.ConnectOK {
+			for k := 0; k < in.Streams; k++ {
+				wg.Add(1)
+				go func(k int) {
+					defer wg.Done()
+					defer streamsDone.Add(1)
+					key := fmt.Sprintf("m-%d", k)
+					res := c20Stream{Res: "refused"}
+					defer func() {
+						obsMu.Lock()
+						obs.Streams[k] = res
+						obsMu.Unlock()
+					}()
+					str, err := svcA.NewStream(sctx, aPeer, nil, c20Desc)
+					if err == nil {
+						err = str.WriteMsg(sctx, &wrapperspb.StringValue{Value: key})
+						if err == nil {
+							reply := new(wrapperspb.StringValue)
+							err = str.ReadMsg(sctx, reply)
+							if err == nil && reply.Value != "ack:"+key {
+								err = errors.New("unexpected reply " + reply.Value)
+							}
+						}
+						_ = str.Close()
+					}
+					if err != nil {
+						res.Err = err.Error()
+						if errors.Is(err, context.DeadlineExceeded) || errors.Is(err, context.Canceled) {
+							res.Res = "pending"
+						}
+						return
+					}
+					seen.mu.Lock()
+					p, ok := seen.m[key]
+					seen.mu.Unlock()
+					if !ok {
+						res.Err = "reply without handler record"
+						return
+					}
+					res = c20Stream{Res: "handled", Addr: common.Bytes2Hex(p.EthAddress.Bytes()), Type: int(p.Type)}
+				}(k)
+			}
+			// let the streams reach B's wrapper (it waits for the registry lock)
+			c20Until(300*time.Millisecond*slow+time.Duration(in.HoldMs)*time.Millisecond,
+				func() bool { return streamsDone.Load() >= int64(in.Streams) })
+			obs.Early = int(streamsDone.Load())
+		}
+		unlock()
+	}
+	c20Until(5*time.Second*slow, func() bool { return streamsDone.Load() >= int64(in.Streams) || !obs.ConnectOK })
+	scancel()
+	wg.Wait()
+	select {
+	case err := <-bDone:
+		if err != nil {
+			obs.PriorErr = "B's Connect: " + err.Error()
+		}
+	case <-time.After(limit / 2):
+		obs.PriorErr = "B's Connect did not return"
+	}
+	obs.GA = int(aks.calls.Load() - gaBase)
+	bAddr := svcB.ethAddress.Bytes()
+	retAddr, retType := aPeer.EthAddress.Bytes(), int(aPeer.Type)
+	if !obs.ConnectOK {
+		retAddr, retType = nil, 0
+		obs.Streams = nil
+	}
+	outs := []string{}
+	for _, st := range obs.Streams {
+		switch st.Res {
+		case "handled":
+			ty := st.Type
+			if ty < 0 {
+				ty = 99
+			}
+			outs = append(outs, coqApp("SHandled", coqBytes(common.Hex2Bytes(st.Addr)), coqN(uint64(ty))))
+		case "refused":
+			outs = append(outs, "SRefused")
+		default:
+			outs = append(outs, "SPending")
+		}
+	}
+	e.Emit(class, in, obs, func(id int) string {
+		return coqRecord("id", coqN(uint64(id)),
+			"klass", coqN(3), "nstreams", coqN(uint64(in.Streams)), "ninit", coqN(1),
+			"i_addr", coqBytes(bAddr), "i_type", coqN(uint64(in.IType)), "i_staked", coqBool(true),
+			"r_addr", coqBytes(aAddr.Bytes()), "r_type", coqN(uint64(in.RType)), "r_staked", coqBool(true),
+			"r_ks_ok", coqBool(true),
+			"prior", coqN(0), "prior_ok", coqBool(false), "conn_close_other", coqBool(false),
+			"connect_ok", coqBool(obs.ConnectOK),
+			"ret_addr", coqBytes(retAddr), "ret_type", coqN(uint64(retType)),
+			"early", coqN(uint64(obs.Early)), "reg_at_gate", coqBool(obs.RegAtGate),
+			"outcomes", coqList(outs), "ga", coqN(uint64(obs.GA)))
+	})
+}
+
 func c20RunCase(t *testing.T, e *vfEnv, class string, in c20In, keyRng *rand.Rand) {
+	if in.Klass == 3 {
+		c20RunMutual(t, e, class, in, keyRng)
+		return
+	}
 	slow := time.Duration(e.Slow)
 	limit := 20 * time.Second * slow
 	if in.Inits < 1 {
@@ -692,6 +901,23 @@ func TestVerifC20(t *testing.T) {
 			defer lh.Done()
 			c20RunCase(t, e, class, in, rand.New(rand.NewSource(e.Seed*32452843+int64(i)+1)))
 		}(i, c.class, c.in)
+	}
+	// mutual dial: the node answering the streams is the handshake initiator (run concurrently)
+	mutual := []c20In{
+		mk(func(in *c20In) { in.Klass = 3; in.Streams = 6 }),
+		mk(func(in *c20In) { in.Klass = 3; in.Streams = 4; in.IType = provider }),
+	}
+	if e.Tier != "quick" {
+		for i := 0; i < 6; i++ {
+			mutual = append(mutual, mk(func(in *c20In) { in.Klass = 3; in.Streams = 3 + i; in.HoldMs = 100 * i }))
+		}
+	}
+	for i, in := range mutual {
+		lh.Add(1)
+		go func(i int, in c20In) {
+			defer lh.Done()
+			c20RunCase(t, e, "mutual-dial", in, rand.New(rand.NewSource(e.Seed*49979687+int64(i)+1)))
+		}(i, in)
 	}
 	for i, in := range secondConn {
 		lh.Add(1)
